@@ -29,6 +29,8 @@ EXTENDS Integers, FiniteSets, Sequences, TLC
 CONSTANTS Svcs,          \* service numbers, e.g. {1, 2}
           Eps,           \* endpoint numbers per service, e.g. {1, 2, 3}
           Opts,          \* which of "ext", "lb", "np", "xl" the environment may switch on
+          EpStates,      \* endpoint states the environment uses, subset of {"none","rl","rr","nl","nr"}
+          InitEpStates,  \* endpoint states a new service may start with
           NPIPs,         \* node-port IPs of the Syncer
           MaxChanges,    \* bound on environment edits
           MaxCrashes,    \* bound on crashes / restarts
@@ -51,14 +53,13 @@ P == INSTANCE Syncer
 
 CfgOff == [on |-> FALSE, ext |-> FALSE, lb |-> FALSE, np |-> FALSE, xl |-> FALSE]
 NoPrev == [s \in Svcs |-> [has |-> FALSE, id |-> 0, cfg |-> CfgOff]]
-EpStates == {"none", "rl", "rr", "nl", "nr"}
 
 \* ---- concrete addressing (opaque to the property layer) -----------------------------------------------
-CIP(s) == <<"cip", s>>
-EXT(s) == <<"ext", s>>
-LBIP(s) == <<"lb", s>>
+CIP(s) == "cip" \o ToString(s)
+EXT(s) == "ext" \o ToString(s)
+LBIP(s) == "lb" \o ToString(s)
 NPort(s) == 30000 + s
-EpIP(s, e) == <<"ep", s, e>>
+EpIP(s, e) == "ep" \o ToString(s) \o "." \o ToString(e)
 
 On == { s \in Svcs : dsvc[s].on }
 
@@ -110,14 +111,28 @@ Cfgs == { c \in [on : {TRUE}, ext : BOOLEAN, lb : BOOLEAN, np : BOOLEAN, xl : BO
             /\ (c.ext => "ext" \in Opts) /\ (c.lb => "lb" \in Opts)
             /\ (c.np => "np" \in Opts) /\ (c.xl => "xl" \in Opts) }
 
-EnvSvc(s, c) ==          \* add a service / change its options / delete it (c = CfgOff)
-    /\ pc = "idle" /\ nchg < MaxChanges /\ c # dsvc[s]
+EnvSvcOn(s, c, a) ==     \* service added, together with its first endpoints
+    /\ pc = "idle" /\ nchg < MaxChanges /\ ~dsvc[s].on
+    /\ dsvc' = [dsvc EXCEPT ![s] = c]
+    /\ dep' = [x \in Svcs \X Eps |-> IF x[1] = s THEN a[x[2]] ELSE dep[x]]
+    /\ nchg' = nchg + 1
+    /\ UNCHANGED <<fe, be, synced, nextId, prev, pc, wantFe, wantBe, ncrash>>
+
+EnvSvcCfg(s, c) ==       \* external IP / LB IP / node port / externalTrafficPolicy changed
+    /\ pc = "idle" /\ nchg < MaxChanges /\ dsvc[s].on /\ c # dsvc[s]
     /\ dsvc' = [dsvc EXCEPT ![s] = c]
     /\ nchg' = nchg + 1
     /\ UNCHANGED <<dep, fe, be, synced, nextId, prev, pc, wantFe, wantBe, ncrash>>
 
+EnvSvcOff(s) ==          \* service deleted (its endpoints go with it)
+    /\ pc = "idle" /\ nchg < MaxChanges /\ dsvc[s].on
+    /\ dsvc' = [dsvc EXCEPT ![s] = CfgOff]
+    /\ dep' = [x \in Svcs \X Eps |-> IF x[1] = s THEN "none" ELSE dep[x]]
+    /\ nchg' = nchg + 1
+    /\ UNCHANGED <<fe, be, synced, nextId, prev, pc, wantFe, wantBe, ncrash>>
+
 EnvEp(s, e, st) ==       \* endpoint added / removed / readiness flip / local flip
-    /\ pc = "idle" /\ nchg < MaxChanges /\ st # dep[s, e]
+    /\ pc = "idle" /\ nchg < MaxChanges /\ dsvc[s].on /\ st # dep[s, e]
     /\ dep' = [dep EXCEPT ![s, e] = st]
     /\ nchg' = nchg + 1
     /\ UNCHANGED <<dsvc, fe, be, synced, nextId, prev, pc, wantFe, wantBe, ncrash>>
@@ -186,6 +201,7 @@ Finish ==                \* Apply returns nil
 
 Crash ==                 \* the process dies (mid-sync, or idle = restart); a new Syncer will re-read the maps
     /\ ncrash < MaxCrashes
+    /\ pc # "idle" \/ synced            \* restarting a Syncer that never ran changes nothing
     /\ ncrash' = ncrash + 1
     /\ pc' = "idle" /\ synced' = FALSE /\ nextId' = 0 /\ prev' = NoPrev
     /\ wantFe' = {} /\ wantBe' = {}
@@ -197,14 +213,23 @@ Init ==
     /\ synced = FALSE /\ nextId = 0 /\ prev = NoPrev /\ pc = "idle"
     /\ wantFe = {} /\ wantBe = {} /\ nchg = 0 /\ ncrash = 0
 
-Write == \/ \E f \in fe : DelFrontend(f)
-         \/ \E b \in wantBe : PutBackend(b)
-         \/ \E f \in wantFe : PutFrontend(f)
-         \/ \E b \in be : DelBackend(b)
-Env == \/ \E s \in Svcs, c \in Cfgs \cup {CfgOff} : EnvSvc(s, c)
+DelFrontends == \E f \in fe : DelFrontend(f)
+PutBackends == \E b \in wantBe : PutBackend(b)
+PutFrontends == \E f \in wantFe : PutFrontend(f)
+DelBackends == \E b \in be : DelBackend(b)
+Write == DelFrontends \/ PutBackends \/ PutFrontends \/ DelBackends
+Env == \/ \E s \in Svcs, c \in Cfgs, a \in [Eps -> InitEpStates] : EnvSvcOn(s, c, a)
+       \/ \E s \in Svcs, c \in Cfgs : EnvSvcCfg(s, c)
+       \/ \E s \in Svcs : EnvSvcOff(s)
        \/ \E s \in Svcs, e \in Eps, st \in EpStates : EnvEp(s, e, st)
 
-Next == Env \/ StartApply \/ Write \/ NextPhase \/ Finish \/ Crash
+Next == \/ \E s \in Svcs, c \in Cfgs, a \in [Eps -> InitEpStates] : EnvSvcOn(s, c, a)
+        \/ \E s \in Svcs, c \in Cfgs : EnvSvcCfg(s, c)
+        \/ \E s \in Svcs : EnvSvcOff(s)
+        \/ \E s \in Svcs, e \in Eps, st \in EpStates : EnvEp(s, e, st)
+        \/ StartApply
+        \/ DelFrontends \/ PutBackends \/ PutFrontends \/ DelBackends
+        \/ NextPhase \/ Finish \/ Crash
 
 Spec == Init /\ [][Next]_ivars
 
